@@ -7,6 +7,7 @@ import (
 	"net"
 	"runtime"
 	"sync"
+	"sync/atomic"
 	"time"
 
 	"google.golang.org/grpc"
@@ -85,6 +86,8 @@ type parResult struct {
 	judged int
 }
 
+const pollSpacing = 150 * time.Microsecond
+
 var pollReq = &gpb.SubscribeRequest{Request: &gpb.SubscribeRequest_Poll{Poll: &gpb.Poll{}}}
 
 // pollTarget runs one real fake Client in POLL mode: the subscription and
@@ -117,11 +120,15 @@ func pollTarget(r *vlib.Run, t *parTarget, idx, rounds int, gate <-chan struct{}
 	}()
 	finish := func() {
 		// End the POLL session: cancel, then one Poll to release the sender.
-		c.Close()
-		st.Push(pollReq)
+		// Close can block for ever if the client has deadlocked (see below), so
+		// it runs on its own goroutine.
+		go func() {
+			c.Close()
+			st.Push(pollReq)
+		}()
 		select {
 		case <-done:
-		case <-time.After(30 * time.Second):
+		case <-time.After(10 * time.Second):
 		}
 		st.CloseSend()
 	}
@@ -129,16 +136,26 @@ func pollTarget(r *vlib.Run, t *parTarget, idx, rounds int, gate <-chan struct{}
 	for round := 0; round <= rounds; round++ {
 		res.round = round
 		if round > 0 {
+			// Client.reset (recv goroutine: mu then qMu) and Client.nextInQueue
+			// (send goroutine: qMu then mu.RLock) take the two locks in opposite
+			// orders, so a Poll that arrives while the sender is still looking at
+			// the drained queue deadlocks the real client. That is a liveness
+			// defect of the fake's POLL mode outside C20's statement; the harness
+			// stays out of the window by letting the sender park first, and treats
+			// a stalled pass as inconclusive.
+			time.Sleep(pollSpacing)
 			st.Push(pollReq)
 		}
 		var pass []*gpb.SubscribeResponse
-		ok := st.WaitSent(wctx, func(sent []*gpb.SubscribeResponse) bool {
+		pctx, pcancel := context.WithTimeout(wctx, 20*time.Second)
+		ok := st.WaitSent(pctx, func(sent []*gpb.SubscribeResponse) bool {
 			if len(sent) >= base+t.per {
 				pass = append(pass, sent[base:base+t.per]...)
 				return true
 			}
 			return false
 		})
+		pcancel()
 		if !ok {
 			select {
 			case x := <-done:
@@ -151,7 +168,7 @@ func pollTarget(r *vlib.Run, t *parTarget, idx, rounds int, gate <-chan struct{}
 				return
 			default:
 			}
-			res.inc = "parallel poll watchdog (180 s) fired"
+			res.inc = fmt.Sprintf("parallel poll: no complete pass within 20 s (%d of %d responses) - fake client stalled in POLL mode (reset/nextInQueue lock order), target abandoned", st.NSent()-base, t.per)
 			finish()
 			return
 		}
@@ -174,7 +191,7 @@ func parallelTrial(r *vlib.Run, trial int, rng *rand.Rand) {
 	procs := []int{2, 4, 8, runtime.NumCPU(), runtime.NumCPU(), 2 * runtime.NumCPU()}[rng.Intn(6)]
 	old := runtime.GOMAXPROCS(procs)
 	defer runtime.GOMAXPROCS(old)
-	freshRounds, pollRounds, agentRounds := r.N(150, 250), r.N(1500, 2500), r.N(15, 25)
+	freshRounds, pollRounds, agentRounds := r.N(3000, 5000), r.N(150, 300), r.N(15, 25)
 	targets := make([]*parTarget, k)
 	cfgs := []string{}
 	latests := map[int64]bool{}
@@ -204,10 +221,12 @@ func parallelTrial(r *vlib.Run, trial int, rng *rand.Rand) {
 	}
 	failed := false
 
-	// Phase A: fresh clients (STREAM), all started together behind a barrier.
-	for round := 0; round < freshRounds && !failed; round++ {
+	// Phase A: fresh clients (STREAM). All targets start together behind a
+	// barrier and then free-run: every subscription builds a new generator.
+	{
 		gate := make(chan struct{})
 		out := make([]parResult, k)
+		var stop atomic.Bool
 		var wg, ready sync.WaitGroup
 		for i := range targets {
 			wg.Add(1)
@@ -215,12 +234,21 @@ func parallelTrial(r *vlib.Run, trial int, rng *rand.Rand) {
 			go func(i int) {
 				defer wg.Done()
 				t := targets[i]
+				res := parResult{target: i, phase: "fresh-client"}
 				ready.Done()
-				resps, ended, mm, inc := runClient(t.cfg, t.per+5, gate)
-				res := parResult{target: i, phase: "fresh-client", round: round, inc: inc, mm: mm}
-				if mm == nil && inc == "" {
-					res.mm = judgeResponses(r, "parallel_fresh_", resps, t.exp, t.pristine, ended)
-					res.judged = 1
+				<-gate
+				for round := 0; round < freshRounds && !stop.Load(); round++ {
+					res.round = round
+					resps, ended, mm, inc := runClient(t.cfg, t.per+5)
+					if mm == nil && inc == "" {
+						mm = judgeResponses(r, "parallel_fresh_", resps, t.exp, t.pristine, ended)
+						res.judged++
+					}
+					if mm != nil || inc != "" {
+						res.mm, res.inc = mm, inc
+						stop.Store(true)
+						break
+					}
 				}
 				out[i] = res
 			}(i)
@@ -230,9 +258,9 @@ func parallelTrial(r *vlib.Run, trial int, rng *rand.Rand) {
 		wg.Wait()
 		for _, res := range out {
 			r.Count("parallel_resets_judged", int64(res.judged))
-			if report(res) {
+			r.Count("parallel_fresh_subscriptions_judged", int64(res.judged))
+			if !failed && report(res) {
 				failed = true
-				break
 			}
 		}
 	}
